@@ -151,7 +151,11 @@ def check_pattern_split(ctx, facts):
     for cat, msg in sorted(problems.items()):
         ctx.finding(f'C11:SPLIT|{cat}', 'C11-S pattern splitting', span, f'parse_format_string, {cat}: {msg}')
     missing = [c for c in need if c not in seen]
-    if missing and not problems:
+    if not seen and not problems:
+        ctx.finding('C11:SPLIT|scan', 'C11-S pattern splitting', span,
+                    'parse_format_string: the pattern is not scanned character by character (no step driven by the chars() of the pattern was found): '
+                    'literal text of more than one byte per character would be torn apart')
+    elif missing and not problems:
         ctx.finding('C11:SPLIT|coverage', 'C11-S pattern splitting', span, f'parse_format_string: no analysed step for the case(s) {missing}')
     ctx.rule('C11-S parse_format_string: quote toggles the state and opens / closes a part, other characters extend a run or start a part', max(len(need), 1),
              len([c for c in need if c in seen and c not in problems]), floor=5, sample={'steps per case': seen})
